@@ -110,7 +110,8 @@ def make_pool(cls_name, mod, size=3):
         if m is None or getattr(m, "_Base", None) is not SimpleTaskPool:
             m = types.ModuleType("ctl_subpool2")
             m.SimpleTaskPool = m._Base = SimpleTaskPool
-            exec(SUBCLASS2_SRC, m.__dict__)
+            # (dont_inherit: this file's own "from __future__ import annotations" must not leak into the subclass module)
+            exec(compile(SUBCLASS2_SRC, "<ctl_subpool2>", "exec", dont_inherit=True), m.__dict__)
             sys.modules["ctl_subpool2"] = m
         return m.SubPool2(mod.work, args=("a",), kwargs={"k": 1}, pool_size=size, name="ctl")
     raise ValueError(cls_name)
